@@ -103,7 +103,13 @@ type schedCase struct {
 	CallRefs []int   `json:"call_refs,omitempty"` // rendering only: the name each command-line call uses (refName)
 	// Inc (rendering only): the tasks live in an included Taskfile (namespace `n`) and their own names there
 	// contain ':' and all end in the same segment (`t3:k`, `t4:k`, aliases `t3a:k`, wildcard `t3:k-*`)
-	Inc      bool   `json:"inc,omitempty"`
+	Inc bool `json:"inc,omitempty"`
+	// Loop (rendering only): a run of identical consecutive `task:` entries is written as ONE entry with `for:`
+	// over a list of that many items (the compiled task has the entries one by one, as the abstract program does)
+	Loop bool `json:"loop,omitempty"`
+	// ManyRefs: an ACYCLIC program in which one task is referred to at least MaximumTaskCall times (the limit counts
+	// calls, not depth: the 1000th call ends with 204 — open finding C07-call-limit-hits-acyclic-graphs)
+	ManyRefs bool   `json:"many_refs,omitempty"`
 	Cap      int    `json:"cap"` // 0 = unlimited
 	Parallel bool   `json:"parallel,omitempty"`
 	Force    bool   `json:"force,omitempty"`
@@ -365,8 +371,27 @@ func renderSched(d schedCase) (string, string) {
 		}
 		if len(t.Cmds) > 0 {
 			b.WriteString("    cmds:\n")
+			skip := 0
 			for j, c := range t.Cmds {
+				if skip > 0 {
+					skip--
+					continue
+				}
 				pos := fmt.Sprintf("c%d", j)
+				if d.Loop && c.Call >= 0 && !c.Deferred && !c.TplName {
+					run := 1
+					for j+run < len(t.Cmds) && t.Cmds[j+run] == c {
+						run++
+					}
+					if run > 1 {
+						fmt.Fprintf(&b, "      - for: [%s]\n        task: %s\n", strings.TrimSuffix(strings.Repeat("x, ", run), ", "), nameOf(c.Call, c.Ref, false, pos))
+						if vs := d.refVars(c.Call, c.Var); vs != "" {
+							fmt.Fprintf(&b, "        vars: %s\n", vs)
+						}
+						skip = run - 1
+						continue
+					}
+				}
 				switch {
 				case c.Call >= 0 && c.Deferred:
 					if vs := d.refVars(c.Call, c.Var); vs != "" {
@@ -740,7 +765,7 @@ func maxAlive(evs []verifhook.Event) int {
 
 var schedCaseNo int
 
-const schedAccept = "accept C01=1 C02=1 C03=1 C06=1 C07=1 C13=1 C14=1 C03s=1 C02v=1 C06k=1"
+const schedAccept = "accept C01=1 C02=1 C03=1 C06=1 C07=1 C13=1 C14=1 C03s=1 C02v=1 C06k=1 C07a=1"
 
 func evalSched(d schedCase) (string, string, schedObs) {
 	schedCaseNo++
@@ -1411,6 +1436,42 @@ func (c *Ctx) genOnceGroup() schedCase {
 	return d
 }
 
+// genManyRefs: acyclic programs in which one task is referred to 1000 times or more: a binary tree of depth 10
+// (every level calls the next one twice: 1024 calls of the leaf), one task with 1001 `task:` entries for the same
+// callee (written as a `for:` loop), and the same with a run: once callee (999 of the references would only wait).
+// MaximumTaskCall counts calls of a task, not the depth of a recursion: the 1000th call ends with 204.
+func (c *Ctx) genManyRefs(shape int) (schedCase, string) {
+	r := c.Rng
+	d := schedCase{Cap: []int{0, 2}[r.Intn(2)], Seed: r.Int63(), Calls: []int{0}, ManyRefs: true}
+	switch shape {
+	case 0:
+		for i := 0; i < 10; i++ {
+			t := mkTask()
+			t.Cmds = []sCmd{{Call: i + 1, Var: -1}, {Call: i + 1, Var: -1}}
+			d.Tasks = append(d.Tasks, t)
+		}
+		leaf := mkTask()
+		leaf.Cmds = []sCmd{shOk()}
+		d.Tasks = append(d.Tasks, leaf)
+		return d, "binary-tree"
+	default:
+		t0 := mkTask()
+		for i := 0; i < 1001; i++ {
+			t0.Cmds = append(t0.Cmds, sCmd{Call: 1, Var: -1})
+		}
+		t0.Cmds = append(t0.Cmds, shOk())
+		t1 := mkTask()
+		t1.Cmds = []sCmd{shOk()}
+		d.Tasks = []sTask{t0, t1}
+		d.Loop = true
+		if shape == 2 {
+			d.Tasks[1].Run = "once"
+			return d, "once-task-1001-references"
+		}
+		return d, "for-loop-1001"
+	}
+}
+
 func mkTask() sTask {
 	return sTask{Run: "always", PlatformOk: true, RequiresOk: true, EnumOk: true, PrecondOk: true}
 }
@@ -1904,6 +1965,20 @@ func runSched(c *Ctx) {
 		if nCut > 1 {
 			c.Hit("dedup-cycle:several-refused-waits")
 		}
+		c.Distinct(schedKey(d, o))
+		c.Emit(cl, il, d)
+	}
+	// acyclic programs with >= 1000 references to one task (open finding: the call limit hits them)
+	// (quick tier: the cheap shape only — the run: once callee; the tree and the loop take 10–20 s each)
+	for i := 0; i < c.Pick(1, 6) && hangs < 3; i++ {
+		d, shape := c.genManyRefs((i + 2) % 3)
+		cl, il, o := evalSched(d)
+		if o.hang {
+			hangs++
+		}
+		evTotal += len(o.events)
+		c.Hit("stream:many-refs:" + shape)
+		c.Hit("many-refs:result:" + o.result)
 		c.Distinct(schedKey(d, o))
 		c.Emit(cl, il, d)
 	}
